@@ -232,6 +232,89 @@ func runMut(raw Sx) (Sx, Sx) {
 			blocked, lastDump = 1, d
 		}
 	}
+	// a container WITHOUT a service on "/": every service has mux patterns of its own. A stable service whose root is a
+	// template below /u (the mux knows it as /u/) and a mutator that keeps adding and removing the service /u itself,
+	// while servers ask for both through both entry points. The mutator knows the state between its own calls: after
+	// its Add returned, /u is that service's, whichever way the request comes in; after its Remove it is gone.
+	if blocked == 0 {
+		rc := restful.NewContainer()
+		if router == 1 {
+			rc.Router(restful.RouterJSR311{})
+		}
+		wo := new(restful.WebService)
+		wo.Path("/u/{id}/orders")
+		wo.Route(wo.GET("").To(say("O")))
+		rc.Add(wo)
+		askBoth := func(path string, legal ...string) {
+			for via := 0; via < 2; via++ {
+				hr, _ := http.NewRequest("GET", "http://h"+path, nil)
+				rec := httptest.NewRecorder()
+				guard(func() {
+					if via == 0 {
+						rc.Dispatch(rec, hr)
+					} else {
+						rc.ServeHTTP(rec, hr)
+					}
+				})
+				got := itoa(rec.Code) + ":"
+				if rec.Code == 200 {
+					got += rec.Body.String()
+				}
+				ok := false
+				for _, l := range legal {
+					if l == got {
+						ok = true
+					}
+				}
+				if !ok {
+					atomic.AddInt64(&wrongChanging, 1)
+				}
+			}
+		}
+		stop2 := make(chan struct{})
+		var rwg, r2 sync.WaitGroup
+		rwg.Add(1)
+		go func() {
+			defer rwg.Done()
+			for k := 0; k < 150; k++ {
+				guard(func() {
+					wu := new(restful.WebService)
+					wu.Path("/u")
+					wu.Route(wu.GET("").To(say("U")))
+					rc.Add(wu)
+					askBoth("/u", "200:U")
+					rc.Remove(wu)
+					askBoth("/u", "404:", "301:")
+				})
+			}
+			close(stop2)
+		}()
+		for s := 0; s < 2; s++ {
+			r2.Add(1)
+			go func() {
+				defer r2.Done()
+				for {
+					select {
+					case <-stop2:
+						return
+					default:
+					}
+					hr, _ := http.NewRequest("GET", "http://h/u/7/orders", nil)
+					rec := httptest.NewRecorder()
+					guard(func() { rc.ServeHTTP(rec, hr) })
+					if rec.Code != 200 || rec.Body.String() != "O" {
+						atomic.AddInt64(&wrongStable, 1)
+					}
+				}
+			}()
+		}
+		if b, d := waitOrDump(&rwg, 20*time.Second, "sync.RWMutex", "(*Container)", "(*WebService)"); b {
+			blocked, lastDump = 1, d
+		}
+		if b, d := waitOrDump(&r2, 5*time.Second, "sync.RWMutex", "(*Container)", "(*WebService)"); b {
+			blocked, lastDump = 1, d
+		}
+	}
 	return L(Ls{}, router, entry, servers, iters, extra), L(int(wrongStable), int(wrongChanging), int(panics), blocked)
 }
 
